@@ -74,11 +74,28 @@ def assemble(unit, workdir, canary=False, canary_loops=False):
     report = os.path.join(workdir, stem + ".report.json")
     opts = dict(unit.get("opts", {}))
     opts["canary_loops"] = canary_loops
+    contract_path = os.path.join(unit["dir"], "contract.rs")
+    imports = unit.get("import_assumed", [])
+    if imports:
+        txt = open(contract_path).read()
+        all_units = load_units()
+        for imp in imports:
+            other = all_units.get(imp["unit"])
+            if other is None:
+                raise Infra(f"{unit['name']}: import_assumed names unknown unit {imp['unit']}")
+            otxt = open(os.path.join(other["dir"], "contract.rs")).read()
+            m = re.search(r"(?m)^@fn " + re.escape(imp["fn"]) + r"((?: -> \w+)?)[ \t]*\n(.*?)(?=^@fn |^@raw|\Z)", otxt, re.S)
+            if not m:
+                raise Infra(f"{unit['name']}: contract of {imp['fn']} not found in {imp['unit']}")
+            txt = f"//@ contract of {imp['fn']} imported verbatim from unit {imp['unit']} (proved there)\n@fn {imp['fn']} @assumed{m.group(1)}\n{m.group(2)}" + txt
+        contract_path = os.path.join(workdir, stem + ".contract.rs")
+        with open(contract_path, "w") as f:
+            f.write(txt)
     spec = {
         "repo": REPO,
         "sources": unit.get("sources", []),
         "rules": unit.get("rules", []),
-        "contract": os.path.join(unit["dir"], "contract.rs"),
+        "contract": contract_path,
         "broadcast": unit.get("broadcast", []),
         "canary": canary,
         "opts": opts,
